@@ -563,8 +563,9 @@ var keywordSet = map[string]bool{}
 // ---------------------------------------------------------------- generator of source text
 
 type gen struct {
-	r   *verifx.Rng
-	fns []string
+	r        *verifx.Rng
+	fns      []string
+	specials int // strings generated with a character the printer escapes numerically
 }
 
 func (g *gen) pick(xs ...string) string { return xs[g.r.Intn(len(xs))] }
@@ -617,9 +618,48 @@ var aggOps = []string{"sum", "avg", "count", "min", "max", "group", "stddev", "s
 	"sort_desc", "drop_empty_series", "dbag"}
 var paramAgg = map[string]bool{"topk": true, "bottomk": true, "count_values": true, "quantile": true}
 
+// rawSpecials are characters given RAW in the source that the printer's %q renders as a numeric escape
+// (\xNN, \uNNNN, \UNNNNNNNN) or a short escape: control bytes, DEL, non-printable and astral runes, invalid UTF-8.
+var rawSpecials = []string{"\x00", "\x01", "\x07", "\x1b", "\x1f", "\x7f", "\t", "\r", "\u0080", "\u00a0", "\u00ad", "\u200b", "\u2028", "\ufeff",
+	"\ufffd", "\U000e0001", "\U0001f600", "\U0010ffff", "\xff", "\xc3", "\xe2\x82", "\xf0\x9f\x98", "\xed\xa0\x80"}
+
+// escSpecials are numeric escapes written out in the source (only meaningful in "…" and '…')
+var escSpecials = []string{"\\001", "\\177", "\\x01", "\\x7f", "\\xff", "\\u200b", "\\u00e9", "\\U000e0001", "\\U0001F600", "\\a", "\\v", "\\f", "\\b"}
+
+// special places one or two interesting characters at the start, in the middle and/or at the END of a plain body
+func (g *gen) special(pool []string) string {
+	base := g.pick("", "a", "ab", "x y", "é", "0")
+	sp := g.pick(pool...)
+	switch g.r.Pick(2, 2, 5, 1, 1) {
+	case 0:
+		return sp + base
+	case 1:
+		return base + sp + g.pick("a", "z9", "é")
+	case 2:
+		return base + sp // the escape the printer emits is the last thing before the closing quote
+	case 3:
+		return sp + base + g.pick(pool...)
+	}
+	return base + sp + g.pick(pool...)
+}
+
 func (g *gen) str() string {
 	if g.r.Chance(1, 150) {
 		return "\"(\""
+	}
+	if g.r.Chance(1, 4) {
+		g.specials++
+		switch g.r.Pick(4, 3, 3, 2, 1) {
+		case 0:
+			return "\"" + g.special(rawSpecials) + "\""
+		case 1:
+			return "'" + g.special(rawSpecials) + "'"
+		case 2:
+			return "`" + g.special(append(rawSpecials, "\n", "\\", "\"", "'")) + "`"
+		case 3:
+			return "\"" + g.special(escSpecials) + "\""
+		}
+		return "'" + g.special(escSpecials) + "'"
 	}
 	common := []string{"", "a", "b", "x.*", "foo|bar", "a b", "é", "\\n", "\\\\", "\\x41", "\\u00e9", "tab\\t", "1", "a:b", "#", "{}", "[0-9]+", "\\101", "\\U0001F600", "\\xff"}
 	switch g.r.Pick(8, 3, 2) {
@@ -852,6 +892,14 @@ func (g *gen) expr(depth int) string {
 			fn = g.pick("nosuchfn", "RATE", "foo")
 		}
 		n := g.r.Pick(2, 6, 3, 1)
+		if g.r.Chance(1, 6) { // label_replace-style call: an expression followed by string arguments
+			k := 1 + g.r.Intn(4)
+			as := []string{g.expr(depth - 1)}
+			for j := 0; j < k; j++ {
+				as = append(as, g.str())
+			}
+			return fn + g.sp() + "(" + g.sp() + strings.Join(as, g.sp()+","+g.sp()) + g.sp() + ")"
+		}
 		s := fn + g.sp() + "(" + g.sp() + g.args(depth-1, n)
 		if n > 0 && g.r.Chance(1, 40) {
 			s += ","
@@ -1158,6 +1206,9 @@ func main() {
 			src, kind = g.arbitrary(), "arbitrary"
 		}
 		h.Stat("kind."+kind, 1)
+		if g.specials > 0 {
+			h.Stat("gen.special-strings", int64(g.specials))
+		}
 		h.Note("src %q", src)
 		runCase(h, src)
 	})
